@@ -75,7 +75,14 @@ func (r *c19Ref) ordered(start, end []byte, reverse bool) (ks, vs [][]byte) {
 	return
 }
 
+// c19KeyTable, when set, replaces the fully symbolic keys by a choice from a fixed table (used where
+// the code under test hashes the key: sharding)
+var c19KeyTable [][]byte
+
 func c19Key(maxLen int) []byte {
+	if c19KeyTable != nil {
+		return append([]byte{}, c19KeyTable[verifCase(len(c19KeyTable))]...)
+	}
 	n := verifCase(maxLen + 1)
 	return verifNondetBytes(n)
 }
@@ -134,7 +141,11 @@ func c19Op(d DB, ref *c19Ref, kind int, maxLen int) {
 		b.Delete(c19Key(maxLen))
 	case 4: // reset then reuse: only what was added after Reset is written
 		b := d.NewBatch()
-		b.Set(c19Key(maxLen), c19Val())
+		if verifNondetBool() {
+			b.Set(c19Key(maxLen), c19Val())
+		} else {
+			b.Delete(c19Key(maxLen)) // a delete-only batch is reset like any other
+		}
 		b.Reset()
 		k, v := c19Key(maxLen), c19Val()
 		b.Set(k, v)
@@ -181,6 +192,7 @@ func c19CheckIter(itr Iterator, ks, vs [][]byte, label string) {
 
 //verif:opt unwind=12 budget_s=1200 thorough.budget_s=3000 split=12 thorough.split=16
 func H_C19_memdb_differential() {
+	c19KeyTable = nil
 	nsel := 12 // pre-state size 0..1 (quick) / 0..2 (thorough) x operation kind 0..5
 	maxLen := 1
 	if verifThorough() {
@@ -210,6 +222,7 @@ func H_C19_memdb_differential() {
 // prefix iteration of MemDB = all keys having the prefix, ascending
 //verif:opt unwind=12 budget_s=900 split=6
 func H_C19_memdb_prefix_iteration() {
+	c19KeyTable = nil
 	n := verifCase(3)
 	d := NewMemDB()
 	ref := &c19Ref{}
@@ -231,6 +244,7 @@ func H_C19_memdb_prefix_iteration() {
 // reference, and the foreign key is neither returned nor modified.
 //verif:opt unwind=14 budget_s=1200 thorough.budget_s=3000 split=12
 func H_C19_prefixdb_differential() {
+	c19KeyTable = nil
 	sel := verifCase(12) // pre-state size 0..1 x operation kind 0..5
 	base := NewMemDB()
 	plen := 1
@@ -277,6 +291,7 @@ func H_C19_prefixdb_differential() {
 // byte-string helpers for all strings of length <= 3
 //verif:opt unwind=8
 func H_C19_helpers() {
+	c19KeyTable = nil
 	n := 1 + verifCase(3)
 	b := verifNondetBytes(n)
 	inc := cpIncr(b)
